@@ -409,6 +409,68 @@ def job_framechop(j, seed):
     return {'obligations': obs, 'candidates': cands, 'paths': len(paths)}
 
 
+def job_getitem(j, seed):
+    """frames[distance]: the frame propagated to the requested distance is the LAST frame of the cascade that is not beyond
+    it - with several choppers at the same distance that is the one cut by all of them - for symbolic, non-decreasing
+    (possibly equal) frame distances and any requested distance at or beyond the first frame."""
+    nfr = j
+    from symex import core as C
+    from .symutil import fresh_run
+
+    sc, cc = _load()
+    fresh_run()
+    obs, cands = [], []
+    tag = f'getitem[{nfr} frames]'
+    case = {'kind': 'getitem', 'nframes': nfr}
+    ds = [C.sym_var(f'd{i}', sign='0+') for i in range(nfr)]
+    for a, b in zip(ds, ds[1:]):
+        C.CTX.assume(a <= b)  # a cascade is built in order of distance; equal distances are allowed
+    D = C.sym_var('D', sign='0+')
+    C.CTX.assume(D >= ds[0])
+    frames = [cc.Frame(distance=sc.scalar(ds[i], unit='m'), subframes=[cc.Subframe(time=_var([i, i + 1, i + 2], 'vertex', 's'), wavelength=_var([1, 2, 3], 'vertex', 'angstrom'))]) for i in range(nfr)]
+    seq = cc.FrameSequence(frames)
+    rec = []
+    real_prop = cc.Frame.propagate_to
+
+    def prop(self, distance):
+        rec.append((self, distance))
+        return ('propagated', len(rec))
+
+    cc.Frame.propagate_to = prop
+    C.CTX.fork_timeout_ms = 3000
+    try:
+        def run():
+            rec.clear()
+            out = seq[sc.scalar(D, unit='m')]
+            return out, list(rec)
+        paths = C.explore(run, max_paths=64)
+    finally:
+        cc.Frame.propagate_to = real_prop
+    for k, p in enumerate(paths):
+        if p.inconclusive or p.exc is not None:
+            obs.append({'name': f'{tag}:path{k}', 'status': 'inconclusive' if p.inconclusive else 'violated', 'detail': str(p.inconclusive or repr(p.exc))[:200], 't': 0})
+            if p.exc is not None:
+                cands.append(('C11:getitem:raises', case, repr(p.exc)[:100]))
+            continue
+        out, calls = p.value
+        ok = len(calls) == 1 and out == ('propagated', 1)
+        if ok:
+            src, dist = calls[0]
+            i = [q for q, f_ in enumerate(frames) if f_ is src]
+            ok = len(i) == 1
+        if not ok:
+            obs.append({'name': f'{tag}:path{k}:one frame of the sequence is propagated to the requested distance', 'status': 'violated', 't': 0, 'detail': str(calls)[:100]})
+            cands.append(('C11:getitem', case, 'frame lookup'))
+            continue
+        i = i[0]
+        goal = (ds[i] <= D) & C.all_of([ds[q] > D for q in range(i + 1, nfr)]) & (dist.value == D)
+        ob = C.prove(f'{tag}:path{k}:frame {i} is the last frame not beyond the requested distance (later frames at the same distance win)', goal, pc=p.pc)
+        obs.append(ob_dict(ob))
+        if ob.status == 'violated':
+            cands.append(('C11:getitem', {**case, 'model': {k_: float(v) for k_, v in (ob.model or {}).items()}, 'chosen': i}, f'frame {i} chosen'))
+    return {'obligations': obs, 'candidates': cands, 'paths': len(paths)}
+
+
 def job_regular(j, seed):
     """Rectangle -> chop by one window at a symbolic distance: every subframe is regular over the reals."""
     which = j
@@ -529,6 +591,7 @@ def run(chk):
     run_jobs(chk, job_clip, [(n, c) for n in ns for c in (True, False)])
     run_jobs(chk, job_propagate, [0])
     run_jobs(chk, job_order, [0])
+    run_jobs(chk, job_getitem, [2, 3] if chk.tier == 'quick' else [2, 3, 4])
     run_jobs(chk, job_framechop, [(1, 2), (2, 2)] if chk.tier == 'quick' else [(1, 2), (2, 2), (1, 3), (2, 3)])
     run_jobs(chk, job_regular, ['is_regular', 'subbounds'])
     run_jobs(chk, job_fp, [0])
@@ -641,6 +704,18 @@ def replay_real(case):
                 exp_area += area(clip(clip(poly, o, True), c, False)) if c > o else 0.0
         if abs(got_area - exp_area) > 1e-9 * max(1.0, exp_area):
             bad.append(f'chopped frame covers area {got_area} in (t, lambda), the union of subframe x opening intersections {exp_area}: triangles {polys}, openings {list(zip(op, cl))}')
+    elif kind == 'getitem':
+        # two choppers at the same distance: frames[distance] must reflect both
+        seq = cc.FrameSequence.from_source_pulse(sc.scalar(0.0, unit='ms'), sc.scalar(3.0, unit='ms'), sc.scalar(1.0, unit='angstrom'), sc.scalar(10.0, unit='angstrom'))
+        c1 = cc.Chopper(distance=sc.scalar(8.0, unit='m'), time_open=sc.array(dims=['slit'], values=[0.004], unit='s'), time_close=sc.array(dims=['slit'], values=[0.016], unit='s'))
+        c2 = cc.Chopper(distance=sc.scalar(8.0, unit='m'), time_open=sc.array(dims=['slit'], values=[0.008], unit='s'), time_close=sc.array(dims=['slit'], values=[0.012], unit='s'))
+        for lst in ([c1, c2], [c2, c1]):
+            chopped = seq.chop(lst)
+            at = chopped[sc.scalar(20.0, unit='m')]
+            ref = chopped.frames[-1].propagate_to(sc.scalar(20.0, unit='m'))
+            b1, b2 = at.bounds(), ref.bounds()
+            if not all(sc.allclose(b1[k_], b2[k_]) for k_ in ('time', 'wavelength')):
+                bad.append(f'frames[20 m] has bounds {b1["wavelength"].values.tolist()} A, the fully chopped frame propagated to 20 m has {b2["wavelength"].values.tolist()} A (two choppers at 8 m)')
     elif kind == 'propagate':
         h = sc.constants.h.value
         mn = sc.constants.m_n.value
